@@ -62,6 +62,9 @@ fn check_arg(arg: &str, expect_bits: u32, symbolic: bool, prefix: usize, case: &
         return;
     }
     rep.count("tree_bits_checked");
+    if rep.samples.is_empty() || (rep.samples.len() < 5 && symbolic && arg.contains(',') && rep.evaluations % 9973 == 0) {
+        rep.sample(J::obj(vec![("input", J::s(&text)), ("check_kind", J::s(["equal", "at-least", "any"][prefix])), ("bits", J::s(format!("{:04o}", bits))), ("verdict", J::s("tree carries the bits reference chmod computes"))]));
+    }
     if !exec {
         return;
     }
@@ -140,7 +143,7 @@ pub fn run(ctx: &Ctx, rep: &mut Report) {
     rep.exhaustive = Some(true);
     rep.extra.push(("exhaustive_bound".into(), J::s("all 4096 octal values (3- and 4-digit spelling), all 315 single clauses, all 99225 ordered clause pairs; each under no prefix, '-' and '/'")));
     // sampled triples / quadruples incl. shuffled and repeated letters
-    let n = ctx.pick(30_000, 2_000_000);
+    let n = ctx.pick(30_000, 20_000_000);
     par_cases(ctx, "multi", n, rep, |i, rep| {
         let mut r = Rng::for_case(ctx.seed, "multi", i);
         let k = 3 + r.usize(2);
